@@ -68,6 +68,6 @@ def handle : List String → String
     | _, _, _ => "bad-op"
   | _ => "bad-op"
 
-def main : IO Unit := statelessLoop handle
-
 end Driver.Meta
+
+def main : IO Unit := Driver.statelessLoop Driver.Meta.handle
